@@ -55,6 +55,12 @@ def _space(tier):
                     for tm in ("behind", "mid", "edge"):
                         for ka in (False, True):
                             out.append((fr, size, s, tm, ka))
+                # two consecutive fragmented requests on one object: the second one's tail arrives more than one
+                # timeout after the FIRST request's fragment (a timer left over from it would hit the second)
+                for s in sorted({HDR[fr], (HDR[fr] + L) // 2, L - 1}):
+                    if HDR[fr] <= s < L:
+                        for ka in (False, True):
+                            out.append((fr, size, s, "pair", ka))
         _SPACE[tier] = out
     return _SPACE[tier]
 
@@ -85,6 +91,16 @@ def make_case(tier, seed, index):
     if index < len(space):
         fr, size, s, tm, ka = space[index]
         tau = TAUS[index % len(TAUS)]
+        if tm == "pair":
+            lat = DEFAULT_LATENCY
+            cmd = _cmd(fr, size, rnd)
+            cmd2 = dict(cmd)
+            if "reg" in cmd2:
+                cmd2["reg"] = (cmd2["reg"] + 300) & 0xFFFF
+            return {"kind": "pos", "framing": fr, "size": size, "cmd": cmd, "cmd2": cmd2, "keep_alive": ka,
+                    "timeout": tau, "retries": rnd.choice([0, 1, 3]), "timing": tm,
+                    "faults": [{"k": "frag", "s": s, "d1": lat, "d2": 2 * lat},
+                               {"k": "frag", "s": s, "d1": 0.625 * tau, "d2": tau - EPS}]}
         d1 = rnd.choice([DEFAULT_LATENCY, tau / 4])
         d2 = {"behind": d1, "mid": tau / 2, "edge": tau - EPS}[tm]
         if d2 < d1:
@@ -210,6 +226,17 @@ def run_case(case):
             violations.append(viol(f"C07:no-success:{fr}",
                                    f"answer of {len(answers[0])} bytes split at {case['faults'][0]['s']} "
                                    f"(second piece {case['timing']}): outcome {outcome}"))
+        elif case.get("cmd2"):
+            rec2 = state.get("rec2")
+            if rec2 is None or rec2["outcome"] != "result":
+                violations.append(viol(f"C07:no-success:{fr}", f"second of two consecutive fragmented requests: outcome "
+                                       f"{rec2 and rec2['outcome']}"))
+            elif ntx != 2:
+                violations.append(viol(f"C07:retransmitted:{fr}",
+                                       f"two consecutive fragmented requests (split at {case['faults'][0]['s']}): {ntx} "
+                                       f"transmissions, expected 2"))
+            elif rec["raw"] != net.answers[0] or rec2["raw"] != net.answers[1]:
+                violations.append(viol(f"C07:wrong-bytes:{fr}", "two consecutive fragmented requests: wrong bytes returned"))
         else:
             if ntx != 1:
                 violations.append(viol(f"C07:retransmitted:{fr}",
